@@ -8,6 +8,12 @@ def st(run, checks, shards=1, race=False, timeout=900, env=None, **kw):
 
 
 PROPS = {
+    "C01": {
+        "pkg": "core", "level": "exploration",
+        "quick": {"stages": [st("^TestC01", 2500)]},
+        "thorough": {"stages": [st("^TestC01", 15000, shards=16)],
+                     "fuzz": [{"target": "FuzzC01Serialize", "seconds": 90}]},
+    },
     "C02": {
         "pkg": "core", "level": "exploration",
         "quick": {"stages": [st("^TestC02", 6000)]},
